@@ -60,6 +60,10 @@ impl PostConversionLinter for BuiltInLinter {
                 self.visit_expression(right)
             }
             Expression::UnaryExpression(_, child) => self.visit_expression(child),
+            Expression::Parenthesis(child) => self.visit_expression(child),
+            Expression::FunctionCall(_, args) | Expression::ArrayElement(_, args, _) => {
+                self.visit_expressions(args)
+            }
             _ => Ok(()),
         }
     }
